@@ -43,7 +43,8 @@ func (jenny *Builder) Generate(context languages.Context) (codejen.Files, error)
 
 				typehint := hinter.paramAnnotationForType(newArg.Name, newArg.Type)
 				if typehint != "" {
-					option.Comments = append(option.Comments, typehint)
+					// the comments are shared with the option held by the context: a copy is extended
+					option.Comments = append(append([]string(nil), option.Comments...), typehint)
 				}
 
 				return newArg
@@ -52,7 +53,8 @@ func (jenny *Builder) Generate(context languages.Context) (codejen.Files, error)
 			return option, nil
 		},
 	}
-	context.Builders, err = visitor.Visit(context.Schemas, context.Builders)
+	// the visitor writes into the list it is given: the builders of the context are shared with the other jennies
+	context.Builders, err = visitor.Visit(context.Schemas, append(ast.Builders(nil), context.Builders...))
 	if err != nil {
 		return nil, err
 	}
